@@ -236,9 +236,11 @@ class TapeRecorder(object):
         else:
             value = {'args': list(args), 'kwargs': kwargs}
 
-        if self.in_playback_mode:
-            self._playback_outputs.append(Output(interception_key, value))
-            return
+        # Checked and appended in one step with respect to play() leaving playback mode (see there)
+        with self._recording_state_lock:
+            if self.in_playback_mode:
+                self._playback_outputs.append(Output(interception_key, value))
+                return
 
         # Recording is discarded
         if self._active_recording is None:
@@ -930,11 +932,14 @@ class TapeRecorder(object):
             pass
         finally:
             playback_duration = time() - start
-            playback_outputs = self._playback_outputs
-            self._playback_recording = None
-            self._playback_outputs = []
-            # Clear any previous invocation counter state
-            self._invoke_counter = Counter()
+            # Playback mode is left in one step with respect to an output interception that is taking its number on
+            # another thread (a thread of the played operation that outlives it)
+            with self._recording_state_lock:
+                playback_outputs = self._playback_outputs
+                self._playback_recording = None
+                self._playback_outputs = []
+                # Clear any previous invocation counter state
+                self._invoke_counter = Counter()
 
         recorded_duration = recording.get_metadata()[TapeRecorder.DURATION]
         recorded_outputs = self._extract_recorded_output(recording)
